@@ -79,12 +79,12 @@ fn random_packet(r: &mut Report, rng: &mut Rng) {
 }
 
 fn built_packet(r: &mut Report, rng: &mut Rng) {
-    built_packet_with(r, rng, None)
+    built_packet_with(r, rng, None, None)
 }
 
 /// `vel` fixes the first two predicted velocity samples (ns0, ew0, ns1, ew1): small integers in exact double-angle
 /// relations put the computed track a rounding error away from 0 / 360
-fn built_packet_with(r: &mut Report, rng: &mut Rng, vel: Option<[i8; 4]>) {
+fn built_packet_with(r: &mut Report, rng: &mut Rng, vel: Option<[i8; 4]>, addr: Option<u32>) {
     // reference anywhere on the globe, truth inside the decodable window (numeric, no wrap across +-180)
     let rlat = if rng.chance(0.1) { *rng.pick(&[0.0, 89.9, -89.9, 45.0]) } else { rng.uni(-90.0, 90.0) };
     let rlon = if rng.chance(0.1) { *rng.pick(&[0.0, 179.9, -179.9, 5.1]) } else { rng.uni(-180.0, 180.0) };
@@ -128,6 +128,10 @@ fn built_packet_with(r: &mut Report, rng: &mut Rng, vel: Option<[i8; 4]>) {
         w2_spare: rng.below(1024) as u32,
     };
     let mut f = f;
+    if let Some(x) = addr {
+        f.address = x;
+        r.class("built:address-sweep(every 24-bit address)");
+    }
     if let Some(v) = vel {
         f.ns[0] = v[0];
         f.ew[0] = v[1];
@@ -199,6 +203,56 @@ fn built_packet_with(r: &mut Report, rng: &mut Rng, vel: Option<[i8; 4]>) {
     }
 }
 
+/// well-formed packets with their ground truth as JSON lines, for the engines outside this process (the Python binding)
+pub fn generate(a: &Args) {
+    use std::io::Write;
+    let mut rng = Rng::new(a.seed, a.shard, "C15gen");
+    let out = std::io::stdout();
+    let mut out = std::io::BufWriter::new(out.lock());
+    let type_names = ["Unknown", "Glider", "Towplane", "Helicopter", "Parachute", "DropPlane", "Hangglider", "Paraglider", "Aircraft", "Jet", "UFO", "Balloon", "Airship", "UAV", "Reserved", "StaticObstacle"];
+    let n = a.budget(24_000, 1_600_000);
+    let mut made = 0;
+    while made < n {
+        let rlat = if rng.chance(0.1) { *rng.pick(&[0.0, 89.9, -89.9, 45.0]) } else { rng.uni(-90.0, 90.0) };
+        let rlon = if rng.chance(0.1) { *rng.pick(&[0.0, 179.9, -179.9, 5.1]) } else { rng.uni(-180.0, 180.0) };
+        let lat = rlat + 3.3 * rng.uni(-1.0, 1.0);
+        let lon = rlon + 6.7 * rng.uni(-1.0, 1.0);
+        if !(-90.0..=90.0).contains(&lat) || !(-180.0..180.0).contains(&lon) {
+            continue;
+        }
+        let f = Fields {
+            address: rng.biased(24) as u32,
+            is_icao: rng.chance(0.5),
+            vs: rng.biased(10) as u32,
+            stealth: rng.chance(0.5),
+            no_track: rng.chance(0.5),
+            gps: rng.biased(12) as u32,
+            actype: rng.below(16) as u32,
+            lat,
+            lon,
+            alt: rng.biased(13) as u32,
+            mult: rng.below(4) as u32,
+            ns: [rng.next() as i8, rng.next() as i8, rng.next() as i8, rng.next() as i8],
+            ew: [rng.next() as i8, rng.next() as i8, rng.next() as i8, rng.next() as i8],
+            w0_spare: rng.below(16) as u32,
+            w2_spare: rng.below(1024) as u32,
+        };
+        // neighbouring packets often share the bits a key cache would be tagged with
+        let ts = match rng.below(8) {
+            0 => 0,
+            1 => u32::MAX,
+            2 => (1 << 23) - 1,
+            3 => 1 << 23,
+            4 => 1_655_274_034 ^ ((rng.below(2) as u32) << 23),
+            _ => rng.next() as u32,
+        };
+        let p = xxtea::packet(&f, ts, [rng.next() as u8, rng.next() as u8]);
+        writeln!(out, "{}", json!({"packet": hexs(&p), "ts": ts, "ref": [rlat, rlon], "lat": lat, "lon": lon, "alt": f.alt, "type": type_names[f.actype as usize], "addr": format!("{:06x}", f.address), "stealth": f.stealth, "no_track": f.no_track, "gps": f.gps})).unwrap();
+        made += 1;
+    }
+    out.flush().unwrap();
+}
+
 pub fn run(a: &Args, r: &mut Report) {
     r.rule = "random: byte strings of length 0..40 (magic byte forced valid 70 %), timestamps incl. 0 / 2^23 / u32::MAX, references incl. NaN, +-inf, +-1e300, +-0, poles, i32 limits -> no panic, numbers finite, track in [0,360); built: field tuples packed and XXTEA-encrypted by the independent implementation, truth within +-3.3 / +-6.7 deg of a reference anywhere on the globe -> address, type, flags, altitude, gps equal, position within one 128e-7 deg step. distinct = distinct (packet, timestamp) with a correct verdict".into();
     r.assumptions.push("reference_lat/reference_lon of a record echo the caller's input and are not 'numbers of the record'".into());
@@ -238,11 +292,20 @@ pub fn run(a: &Args, r: &mut Report) {
     let mut k = a.shard as i64;
     while k < total && !a.asan {
         let d = |j: i64| ((k / side.pow(j as u32)) % side) as i32 - rr;
-        built_packet_with(r, &mut rng, Some([d(0) as i8, d(1) as i8, d(2) as i8, d(3) as i8]));
+        built_packet_with(r, &mut rng, Some([d(0) as i8, d(1) as i8, d(2) as i8, d(3) as i8]), None);
         k += a.nshards as i64;
+    }
+    // every device address once (exhaustive over the 2^24 addresses, split across the shards; the other fields random)
+    if !a.asan {
+        let mut addr = a.shard as u32;
+        while addr < (1 << 24) {
+            built_packet_with(r, &mut rng, None, Some(addr));
+            addr += a.nshards as u32;
+        }
+        r.extra.insert("address_sweep".into(), json!(["all 2^24 device addresses"]));
     }
     if !a.asan {
         r.extra.insert("velocity_sweep_box".into(), json!([format!("[-{rr}, {rr}]^4")]));
-        r.extra.insert("mandatory".into(), json!(["built:small-integer-velocity-sweep", "built:ok(key table A)", "built:ok(key table B)", "random:record(key table A)", "random:record(key table B)", "random:error(short)"]));
+        r.extra.insert("mandatory".into(), json!(["built:small-integer-velocity-sweep", "built:address-sweep(every 24-bit address)", "built:ok(key table A)", "built:ok(key table B)", "random:record(key table A)", "random:record(key table B)", "random:error(short)"]));
     }
 }
